@@ -6,7 +6,7 @@
      InitDerive  configurations: every subset of the 7 naming values, several byte widths *)
 EXTENDS ConfigId, TLC
 CONSTANTS ND, NT,              \* max tokens per name / per text
-          PS, DS               \* project / device values enumerated with every customer
+          FULL                 \* TRUE: all project / device values with every customer, else a few
 VARIABLES seed, x              \* Init: one state per seed; Next: the seed's cases (so that all workers are used)
 
 RECURSIVE CatFrom(_, _)
@@ -20,6 +20,8 @@ TextToks == {<<49>>, <<48>>, <<57>>, <<45>>, <<32>>, <<120>>, <<10>>, <<32>> \o 
 Names(n) == {NoName} \cup {Name(s) : s \in Words(NameToks, n)}
 FewNames == {NoName, Name(<<120>>), Name(LookAlike \o <<32, 120>>), Name(<<32>> \o V1)}
 
+PS == IF FULL THEN -1..9 ELSE {-1, 0, 5, 8}
+DS == PS
 IdCases(c) == {Id(c, p, d, v, n) : p \in PS, d \in DS, v \in 0..9, n \in FewNames}
               \cup (IF c \in {-1, 0, 10, 9}
                     THEN {Id(c, p, d, v, n) : p \in {-1, 0, 5}, d \in {-1, 0, 5}, v \in {0, 7}, n \in Names(ND)} ELSE {})
@@ -46,9 +48,20 @@ RoundTrip == (InDomain(x) /\ ~Ambiguous(x)) => (Same(x) /\ Canonical(PrintId(x))
 AmbiguityIsGenuine == (InDomain(x) /\ Ambiguous(x)) => ~Same(x)        \* the excluded names are exactly the failing ones
 RoundTripAllNames == InDomain(x) => Same(x)                            \* EXPECTED VIOLATED: the format is ambiguous
 SentinelPrinted == (InDomain(x) /\ IsScheme(x)) => LET r == ParseId(PrintId(x)) IN r.id.p = x.p /\ r.id.d = x.d
+\* deliberately wrong variant (self-test, must be refuted): the name-only pattern taking the FIRST " (version d)"
+ParseNonGreedy(t) ==
+    IF IsHead(t) THEN ParseId(t)
+    ELSE LET e  == LineEnd(t, 1)
+             qs == {q \in 0..(e - VS) : IsVerAt(t, q)}
+         IN  IF qs = {} THEN [ok |-> FALSE, id |-> NoId]
+             ELSE LET q == CHOOSE y \in qs : \A z \in qs : y <= z IN
+                  [ok |-> TRUE, id |-> Id(None, None, None, Num(t, q + Len(VerOpen) + 1, WV), Name(SubSeq(t, 1, q)))]
+WrongVariantNonGreedy == (InDomain(x) /\ ~Ambiguous(x)) => ParseNonGreedy(PrintId(x)) = [ok |-> TRUE, id |-> x]
 \* ---- texts
 CanonRoundTrip == Canonical(x) => LET r == ParseId(x) IN r.ok /\ InDomain(r.id) /\ PrintId(r.id) = x
-ParseSound == LET r == ParseId(x) IN r.ok => (Printable(r.id) /\ r.id.v \in 0..9)
+\* a parsed identifier can be printed again, except the text whose customer is the unknown code and that has no name
+ParseSound == LET r == ParseId(x) IN r.ok => /\ r.id.v \in 0..9
+                                             /\ ~Printable(r.id) => (IsHead(x) /\ Num(x, PC, WC) = UNK /\ r.id.n = NoName)
 \* ---- derivation
 DeriveCases ==
     LET prj == x.w = "prj"
